@@ -54,3 +54,28 @@ Theorem C01_standard_offsets_address_samples : forall vs as_ start pre post bufs
                  take (len (s_data s)) (drop o file) = s_data s).
 Proof. exact walk_std_address_samples. Qed.
 Print Assumptions C01_standard_offsets_address_samples.
+
+From Muxide Require Export Spec.Checks Proofs.EndToEndProofs.
+(* END TO END: for every configuration (4 codecs x audio x fast start x metadata) and every call
+   history that finishes successfully on a fault-free sink (file below 4 GiB), the independent
+   reader resolves every track's samples, in submission order, to exactly the submitted bytes in
+   MP4 framing with the submitted key flag, and the sample ranges tile the mdat payload exactly *)
+Theorem C01_finished_file_resolves_to_submitted_samples : forall b m0 ops m rs s,
+  build b [] = inl m0 -> run m0 ops = (m, rs) -> In (RStats s) rs ->
+  Forall op_payload_ok ops -> len (sink_of m) < 4294967296 ->
+  check_C01 b ops (map class_of rs) (sink_of m) = true.
+Proof. exact finished_file_resolves_to_submitted_samples. Qed.
+Print Assumptions C01_finished_file_resolves_to_submitted_samples.
+
+(* the spec-level replay of the accepted history agrees with the model's queues *)
+Theorem C01_accepted_history_matches_queues : forall b m0 ops m rs,
+  build b [] = inl m0 -> run m0 ops = (m, rs) -> Forall op_payload_ok ops ->
+  (forall p, ~ In (RPanic p) rs) ->
+  let h := accepted b ops (map class_of rs) in
+  map (fun s => (s_pts s, s_dts s, s_data s, s_key s)) (vsamples (m_writer m)) =
+    map (fun f => (vf_pts f, vf_dts f, frame_video (cfg_codec b) (vf_data f), vf_key f)) (h_v h) /\
+  map (fun s => (s_pts s, s_data s)) (asamples (m_writer m)) =
+    map (fun f => (af_pts f,
+                   match cfg_audio b with Some a => frame_audio a (af_data f) | None => [] end)) (h_a h).
+Proof. exact accepted_matches_queues. Qed.
+Print Assumptions C01_accepted_history_matches_queues.
